@@ -179,6 +179,12 @@ def run_shard(desc):
                 meta.append(("conv", j))
             steps.append({"op": "access", "v": j})
             meta.append(("access", j))
+    import os
+    if os.environ.get("VERIF_TOOL") and len(steps) > 250:
+        # interpreter tiers are ~4 orders of magnitude slower: a seeded sample of the same payload pools
+        idx = sorted(rnd.sample(range(len(steps)), 250))
+        steps = [steps[i] for i in idx]
+        meta = [meta[i] for i in idx]
     recs, events, _ = common.run_batch(steps, wd, "%s-%d" % (kind, si), profile)
     for st_, m, r in zip(steps, meta, recs):
         if r is None:
@@ -266,6 +272,10 @@ def run(rep, tier):
     rep.extra["exhaustive"] = True
     rep.extra["exhaustive_space"] = "accessor x variant matrix; every 2^k, 2^k+-1 of every integer type"
     rep.floor = 10000
+
+
+def san_shards(tier):
+    return [("miri", [("int", 500 + i, 5, "miri") for i in range(6)] + [("float", 500 + i, 100, "miri") for i in range(6)] + [("dec", 500 + i, 1, "miri") for i in range(3)] + [("matrix", 500, 0, "miri")])]
 
 
 def replay(path):
